@@ -231,6 +231,9 @@ pub struct Cfg {
     pub max_procs: usize,
     pub max_events: usize,
     pub max_launches: usize,
+    /// CICADA_ENABLE_SIG_HANDLER=1: child statuses are consumed by the asynchronous SIGCHLD handler (a scheduler
+    /// choice of its own) and parked; the prompt-time poll only applies what is parked
+    pub handler: bool,
 }
 
 const PID_SETS: [[i32; 3]; 4] = [
@@ -332,7 +335,14 @@ impl Run {
     fn poll(&mut self, after: &str) -> Result<(), Violation> {
         self.world.borrow_mut().trace.push("poll".to_string());
         self.world.borrow_mut().no_unwind = true;
-        v::try_wait_bg_jobs(&mut self.sh, false, false);
+        v::try_wait_bg_jobs(&mut self.sh, false, self.cfg.handler);
+        if self.cfg.handler {
+            // the table is judged at a quiescent point: every signal raised so far has been delivered (the handler has
+            // drained the kernel) and the prompt has come round once more.  States in between - an event parked by an
+            // earlier handler run and applied before a newer one is delivered - are transient by construction.
+            v::handle_sigchld(17);
+            v::try_wait_bg_jobs(&mut self.sh, false, true);
+        }
         self.world.borrow_mut().no_unwind = false;
         if self.world.borrow().unwind_later {
             panic::panic_any(NeedChoice);
@@ -383,7 +393,10 @@ impl Run {
         // reaped is used again (a kernel reuses a pid only after it has been waited for)
         let set = {
             let w = self.world.borrow();
-            let free = |set: &[i32; 3]| set.iter().all(|p| w.procs.iter().all(|q| q.pid != *p || q.reaped));
+            // (with the handler enabled a termination is consumed asynchronously; a pid comes back only after the shell
+            // has also taken the process out of its table - a kernel needs tens of thousands of forks to wrap around)
+            let in_table = |p: &i32| self.cfg.handler && self.sh.jobs.values().any(|j| j.pids.contains(p));
+            let free = |set: &[i32; 3]| set.iter().all(|p| w.procs.iter().all(|q| q.pid != *p || q.reaped) && !in_table(p));
             // (hostile choice: a pid that has just been given back is the first to be handed out again)
             let used = self.sets_used.min(PID_SETS.len());
             match PID_SETS[..used].iter().find(|s| free(s)) {
@@ -473,6 +486,7 @@ impl Run {
             Launch(bool, usize),
             Event(i32, Notif),
             Line,
+            Handler,
             Fg(i32),
             Bg(i32),
         }
@@ -487,7 +501,18 @@ impl Run {
         for (pid, e) in self.world.borrow().legal_events() {
             alts.push(A::Event(pid, e));
         }
+        let parked = {
+            let (reap, stop, cont, kill) = v::verif_maps_dump();
+            !(reap.is_empty() && stop.is_empty() && cont.is_empty() && kill.is_empty())
+        };
         if !self.world.borrow().waitable().is_empty() {
+            if self.cfg.handler {
+                alts.push(A::Handler);
+            } else {
+                alts.push(A::Line);
+            }
+        }
+        if self.cfg.handler && parked {
             alts.push(A::Line);
         }
         for g in &jobs {
@@ -510,6 +535,16 @@ impl Run {
             }
             A::Event(pid, e) => self.world.borrow_mut().apply_event(pid, e),
             A::Line => self.poll("line")?,
+            A::Handler => {
+                // the signal handler runs between two commands: it drains the kernel and parks what it finds
+                self.world.borrow_mut().trace.push("sigchld handler".to_string());
+                self.world.borrow_mut().no_unwind = true;
+                v::handle_sigchld(17);
+                self.world.borrow_mut().no_unwind = false;
+                if self.world.borrow().unwind_later {
+                    panic::panic_any(NeedChoice);
+                }
+            }
             A::Fg(g) => self.builtin_fg(g)?,
             A::Bg(g) => self.builtin_bg(g)?,
         }
